@@ -190,7 +190,13 @@ func (r *sharedResource) GiveMe(target uint32) {
 	}
 
 	// determine the number of partitions needed
-	actual := math.Ceil(float64(target) / float64(r.factor))
+	// NOTE: the default factor is only applied when the resource is provisioned/started; a request that arrives
+	// before that must not divide by zero (the conversion of +Inf or NaN to uint32 is not defined)
+	factor := r.factor
+	if factor == 0 {
+		factor = 1 // assume 1:1
+	}
+	actual := math.Ceil(float64(target) / float64(factor))
 
 	// raise event
 	r.Emit(TargetEvent, int(target), "", nil)
